@@ -356,7 +356,7 @@ def oracle_builtin(case, r):
         F[t] = best
     tol = lambda v: 1e-7 * (1 + abs(v))  # noqa: E731
     for t in range(1, n + 1):
-        if abs(r["opt"][t - 1] - F[t]) > tol(F[t]):
+        if not abs(r["opt"][t - 1] - F[t]) <= tol(F[t]):  # (written so that NaN fails)
             return f"cumulative score at t={t - 1} is {r['opt'][t - 1]!r}; the optimal total penalised saving of that prefix is {F[t]!r}"
     tot, prev = 0.0, 0
     for a, b in r["anoms"]:
@@ -370,7 +370,7 @@ def oracle_builtin(case, r):
         else:
             return f"collective anomaly [{a},{b}) has length outside [{m},{M}]"
         prev = b
-    if abs(tot - F[n]) > tol(F[n]):
+    if not abs(tot - F[n]) <= tol(F[n]):
         return f"re-evaluating the reported anomalies {r['anoms']} gives {tot!r}; the final score / optimum is {F[n]!r}"
     return None
 
@@ -498,7 +498,7 @@ def oracle_long(case, r):
             best = max(best, float(np.max(F[t - Ls] + sav(t - Ls, t) - ca)))
         F[t] = best
     opt = np.array(r["opt"])
-    bad = np.where(np.abs(opt - F[1:]) > 1e-7 * (1 + np.abs(F[1:])))[0]
+    bad = np.where(~(np.abs(opt - F[1:]) <= 1e-7 * (1 + np.abs(F[1:]))))[0]
     if len(bad):
         t = int(bad[0])
         return f"n={n}: cumulative score at t={t} is {opt[t]!r}; the optimal total penalised saving of that prefix is {F[t + 1]!r}"
@@ -506,7 +506,7 @@ def oracle_long(case, r):
     if any(a2 < b1 for (a1, b1), (a2, b2) in zip(an, an[1:])) or any(not (b - a == 1 or m <= b - a <= M) for a, b in an):
         return f"n={n}: reported anomalies are not sorted / disjoint / of admissible length"
     val = sum((x[a] ** 2 - pa) if b - a == 1 else (sav(a, b) - ca) for a, b in an)
-    if abs(val - F[n]) > 1e-7 * (1 + abs(F[n])):
+    if not abs(val - F[n]) <= 1e-7 * (1 + abs(F[n])):
         return f"n={n}: re-evaluating the {len(an)} reported anomalies gives {val!r}; the final score / optimum is {F[n]!r}"
     return None
 
